@@ -1,17 +1,219 @@
-"""native replay for C17 (stub while the probes are being written)"""
+"""Native replay for C17: the solver's assignment (state payload, message fields) is pushed through the real handshake machines /
+the real session handlers (guard-on build, probes in /verif/hooks/cluster_node*.rs) and the claims are re-evaluated on what the
+real code did."""
+import json
+import native
+
+SERVER_EXPECTED = {('WaitingOnPeerName', 'Name'): {'HavePeerName'},
+                   ('WaitingOnClientStatus', 'ClientStatus'): {'Close', 'WaitingOnClientChallengeReply'},
+                   ('WaitingOnClientChallengeReply', 'ClientChallenge'): {'Ok', 'Close'}}
+CLIENT_EXPECTED = {('WaitingForServerStatus', 'ServerStatus'): {'WaitingForServerChallenge'},
+                   ('WaitingForServerChallenge', 'ServerChallenge'): {'WaitingForServerChallengeAck'},
+                   ('WaitingForServerChallengeAck', 'ServerAck'): {'Ok', 'Close'}}
+COOKIE = 'the-cookie'
+CHECK_REPLIES = ('NoOtherConnection', 'OtherConnectionContinues', 'ThisConnectionContinues', 'DuplicateConnection', 'sender_error', 'err', 'timeout')
+Z32 = '00' * 32
+
+
+def mval(model, prefix, default=0):
+    if model is None:
+        return default
+    for d in model.decls():
+        if d.name().startswith(prefix + '!'):
+            v = model[d]
+            try:
+                return v.as_long()
+            except Exception:   # noqa
+                return 1 if str(v) == 'True' else 0
+    return default
+
+
+def mbytes(model, prefix, n):
+    return ''.join('%02x' % (mval(model, '%s_%d' % (prefix, i)) & 0xff) for i in range(n))
+
+
+def state_args(role, sv, model):
+    a = b = 0
+    d1 = d2 = Z32
+    if role == 'server':
+        if sv == 'WaitingOnClientChallengeReply':
+            a, d1 = mval(model, 'st_challenge'), mbytes(model, 'st_digest', 32)
+        elif sv == 'Ok':
+            d1 = mbytes(model, 'ok_digest', 32)
+    else:
+        if sv == 'WaitingForServerChallenge':
+            a = mval(model, 'st_status') & 0xffffffff
+        elif sv == 'WaitingForServerChallengeAck':
+            a, b = mval(model, 'st_srv_challenge'), mval(model, 'st_our_challenge')
+            d1, d2 = mbytes(model, 'st_reply', 32), mbytes(model, 'st_expected', 32)
+    return {'a': a, 'b': b, 'd1': d1, 'd2': d2}
+
+
+def msg_args(mname, model):
+    kind = mname.split('/')[0]
+    n = int(mname.split('/len')[1]) if '/len' in mname else 0
+    val, flag, digest = 0, 0, ''
+    if kind == 'ServerStatus':
+        val = mval(model, 'msg_status') & 0xffffffff
+    elif kind == 'ClientStatus':
+        flag = mval(model, 'msg_client_status')
+    elif kind == 'ServerChallenge':
+        val = mval(model, 'msg_srv_challenge')
+    elif kind == 'ClientChallenge':
+        val, digest = mval(model, 'msg_reply_challenge'), mbytes(model, 'msg_reply_digest%d' % n, n)
+    elif kind == 'ServerAck':
+        digest = mbytes(model, 'msg_ack_digest%d' % n, n)
+    return {'kind': kind, 'val': val, 'flag': flag, 'digest': digest}
+
+
+def fsm_claims(machine, sv, sa, ma, out):
+    """violated claims of one native step"""
+    bad = []
+    nxt = out.get('next')
+    kind = ma['kind']
+    if machine == 'start_challenge':
+        allowed = {'WaitingOnClientChallengeReply'} if sv in ('WaitingOnClientStatus', 'HavePeerName') else {'Close'}
+        if nxt not in allowed:
+            bad.append('start_challenge.only_from_name_or_status_states')
+        if nxt == 'WaitingOnClientChallengeReply' and out.get('next_digest') != out.get('digest_of_next_challenge'):
+            bad.append('expected_digest_is_of_fresh_challenge')
+        return bad
+    expected = SERVER_EXPECTED if machine == 'server' else CLIENT_EXPECTED
+    chal_state, reply = ('WaitingOnClientChallengeReply', 'ClientChallenge') if machine == 'server' else ('WaitingForServerChallengeAck', 'ServerAck')
+    stored = sa['d1'] if machine == 'server' else sa['d2']
+    if sv == 'Close' and nxt != 'Close':
+        bad.append('close_is_absorbing')
+    if (sv, kind) not in expected:
+        if nxt != 'Close':
+            bad.append('unexpected_message_closes')
+    elif nxt not in expected[(sv, kind)]:
+        bad.append('in_order_successors')
+    if nxt == 'Ok' and not (sv == chal_state and kind == reply and ma['digest'] == stored):
+        bad.append('ok_only_on_matching_digest')
+    if sv == chal_state and kind == reply and nxt not in ('Ok', 'Close'):
+        bad.append('wrong_digest_closes')
+    if nxt in ('WaitingOnClientChallengeReply', 'WaitingForServerChallengeAck') and sv != nxt and out.get('next_digest') != out.get('digest_of_next_challenge'):
+        bad.append('expected_digest_is_of_fresh_challenge')
+    return bad
+
+
+def run_fsm(machine, sv, sa, ma):
+    out, _l, rc, err = native.run('auth_fsm', machine=machine, state=sv, cookie=COOKIE, **sa, **ma)
+    if rc != 0:
+        raise RuntimeError('native auth_fsm failed: ' + err[-300:])
+    return out
 
 
 def replay_fsm(which, sv, mname, model):
-    return {'replayed': False, 'detail': 'no native replay yet'}
+    role = 'client' if which == 'client' else 'server'
+    sa = state_args(role, sv, model)
+    ma = msg_args(mname, model)
+    out = run_fsm(which, sv, sa, ma)
+    bad = fsm_claims(which, sv, sa, ma, out)
+    return {'replayed': bool(bad), 'detail': 'native %s machine: %s %s --%s--> %s ; violated %s' % (which, sv, sa, ma, out.get('next'), bad),
+            'replay': {'scenario': 'auth_fsm', 'machine': which, 'state': sv, 'state_args': sa, 'msg_args': ma, 'violated': bad}}
+
+
+def run_session(auth, sa, frame, ma, advertised=1, remotable=1, check_reply='NoOtherConnection'):
+    kw = dict(auth=auth, frame=frame, advertised=int(advertised), remotable=int(remotable), check_reply=check_reply, cookie=COOKIE)
+    kw.update(sa)
+    kw.update({'kind': ma['kind'], 'val': ma.get('val', 0), 'flag': ma.get('flag', 0), 'digest': ma.get('digest', '')})
+    out, _l, rc, err = native.run('auth_session', timeout=30, **kw)
+    if rc != 0:
+        raise RuntimeError('native auth_session failed: ' + err[-300:])
+    return out
+
+
+def quiet(out):
+    """nothing observable happened"""
+    return (out.get('delivered') == '0' and out.get('remote_actors') == '0' and out.get('group_members') == '0' and out.get('children') == '0' and out.get('tcp_sent') == '0'
+            and out.get('server_log', '') == '' and out.get('ready') == 'Open')
 
 
 def replay_gate(which, params):
-    return {'replayed': False, 'detail': 'no native replay yet'}
+    auth = params.get('auth', 'AsServer(WaitingOnPeerName)')
+    authed = auth.endswith('(Ok)')
+    sa = {'a': 0, 'b': 0, 'd1': Z32, 'd2': Z32}
+    bad, runs = [], []
+    if which in ('node', 'predicate'):
+        kinds = [params['msg']] if params.get('msg') else ['Cast', 'Call/timeout', 'Call/no-timeout', 'Reply', 'None']
+        for kind in kinds:
+            for adv in (1, 0):
+                for rem in (1, 0):
+                    out = run_session(auth, sa, 'node', {'kind': kind}, adv, rem)
+                    runs.append((kind, adv, rem, out.get('delivered'), out.get('auth')))
+                    if not authed and not quiet(out):
+                        bad.append('unauthenticated_node_message_has_no_effect[%s adv=%d rem=%d]' % (kind, adv, rem))
+                    if authed and out.get('delivered') != '0' and not (adv and rem):
+                        bad.append('delivery_only_to_advertised_remotable_actor[%s adv=%d rem=%d]' % (kind, adv, rem))
+                    if out.get('auth') != auth:
+                        bad.append('state_unchanged[%s]' % kind)
+    else:
+        kinds = [params['msg']] if params.get('msg') else ['Spawn', 'PgJoin', 'Ready', 'Ping']
+        for kind in kinds:
+            out = run_session(auth, sa, 'control', {'kind': kind})
+            runs.append((kind, {k: out.get(k) for k in ('remote_actors', 'group_members', 'children', 'tcp_sent', 'server_log', 'ready')}))
+            if not authed and not quiet(out):
+                bad.append('unauthenticated_control_message_has_no_effect[%s]' % kind)
+    return {'replayed': bool(bad), 'detail': 'native session gate %s on %s: %s ; violated %s' % (which, auth, runs, bad),
+            'replay': {'scenario': 'auth_session', 'which': which, 'params': params, 'violated': bad}}
 
 
-def replay_auth(lab, mname, model):
-    return {'replayed': False, 'detail': 'no native replay yet'}
+def auth_claims(auth, sv, role, sa, ma, out):
+    bad = []
+    post = out.get('auth', '')
+    prole, pstate = post.split('(')[0], post.split('(')[1].rstrip(')')
+    if prole != auth.split('(')[0]:
+        bad.append('role_is_kept')
+    chal_state, reply = ('WaitingOnClientChallengeReply', 'ClientChallenge') if role == 'server' else ('WaitingForServerChallengeAck', 'ServerAck')
+    stored = sa['d1'] if role == 'server' else sa['d2']
+    if pstate == 'Ok' and not (sv == 'Ok' or (sv == chal_state and ma['kind'] == reply and ma['digest'] == stored)):
+        bad.append('authenticated_only_by_matching_digest')
+    if sv == 'Close' and pstate != 'Close':
+        bad.append('closed_stays_closed')
+    if pstate == 'Close' and out.get('myself_stopped') != 'true':
+        bad.append('closing_stops_the_session')
+    if role == 'server' and pstate == 'WaitingOnClientChallengeReply' and sv != pstate and out.get('auth_d') != out.get('digest_of_auth_a'):
+        bad.append('expected_digest_is_of_fresh_challenge')
+    if sv != 'Ok' and (out.get('delivered') != '0' or out.get('remote_actors') != '0' or out.get('group_members') != '0' or out.get('children') != '0'):
+        bad.append('only_handshake_effects_before_authentication')
+    return bad
+
+
+def replay_auth(lab, mname, model, replies=CHECK_REPLIES):
+    role = 'server' if lab.startswith('AsServer') else 'client'
+    sv = lab.split('(')[1].rstrip(')')
+    sa = state_args(role, sv, model)
+    ma = msg_args(mname, model)
+    bad, runs = [], []
+    for cr in replies:
+        out = run_session(lab, sa, 'auth', ma, check_reply=cr)
+        b = auth_claims(lab, sv, role, sa, ma, out)
+        runs.append((cr, out.get('auth'), out.get('myself_stopped')))
+        bad += ['%s[check_session=%s]' % (x, cr) for x in b]
+        if sv != 'WaitingOnPeerName' or ma['kind'] != 'Name':
+            break       # CheckSession is only asked on the name message
+    return {'replayed': bool(bad), 'detail': 'native handle_auth on %s %s with %s: %s ; violated %s' % (lab, sa, ma, runs, bad),
+            'replay': {'scenario': 'auth_session', 'which': 'auth', 'auth': lab, 'mname': mname, 'state_args': sa, 'msg_args': ma, 'violated': bad}}
 
 
 def replay_file(d):
-    return 0
+    rp = d['replay']
+    if rp['scenario'] == 'auth_fsm':
+        out = run_fsm(rp['machine'], rp['state'], rp['state_args'], rp['msg_args'])
+        bad = fsm_claims(rp['machine'], rp['state'], rp['state_args'], rp['msg_args'], out)
+        print('native:', out)
+    elif rp['which'] == 'auth':
+        role = 'server' if rp['auth'].startswith('AsServer') else 'client'
+        sv = rp['auth'].split('(')[1].rstrip(')')
+        bad = []
+        for cr in CHECK_REPLIES:
+            out = run_session(rp['auth'], rp['state_args'], 'auth', rp['msg_args'], check_reply=cr)
+            print('native [%s]:' % cr, out)
+            bad += auth_claims(rp['auth'], sv, role, rp['state_args'], rp['msg_args'], out)
+    else:
+        r = replay_gate(rp['which'], rp['params'])
+        print(r['detail'])
+        bad = r['replay']['violated']
+    print('violated:', bad)
+    return 1 if bad else 0
